@@ -73,6 +73,9 @@ def generate(self: "GeneratorManager", generator_name: "any", template_dir: "any
     note("the only calls into the outside world are recorded in the effect log of the path: Generator(), register_checks, "
          "verify, _get_templates, _get_skels, gen")
     ensures_effects(effect_count("call:Verifier.verify") == 1)
+    # the plug-in's own checks are registered before the verdict is computed
+    ensures_effects(effect_count("register_checks") == 1
+                    and effect_index("register_checks", 0) < effect_index("call:Verifier.verify", 0))
     # gated: gen runs exactly when the verdict is Ok, after the verdict, with the caller's schema and output path
     ensures_effects(effect_count("gen") == (1 if effect_result("call:Verifier.verify", 0).is_ok() else 0))
     ensures_effects(implies(effect_count("gen") == 1, effect_index("call:Verifier.verify", 0) < effect_index("gen", 0)))
